@@ -42,6 +42,13 @@ Theorem py_templates_match_walker :
   gen_py_des_dispatch = walker_py_des_dispatch /\ gen_py_des_macros = walker_py_des_macros.
 Proof. repeat split; reflexivity. Qed.
 
+(* the C tables projected on the DEFAULT option set (opt_override_capacity = false; guard / storage-capacity helper macros
+   dropped or inlined by the scanner): this is the structure Walker.v models.  It is insensitive to template fixes that only
+   touch branches under the option atom (e.g. /repo 2e84c7a), which change the full tables above only. *)
+Theorem c_default_templates_match_walker :
+  gen_c_ser_macros_default = walker_c_ser_macros_default /\ gen_c_des_macros_default = walker_c_des_macros_default.
+Proof. split; reflexivity. Qed.
+
 (* ---------------- Part 2: the walker's case split is the templates' case split (C) ---------------- *)
 
 (* 2a. type dispatch *)
@@ -229,6 +236,41 @@ Theorem c_array_paths : forall b p w z,
   emits KMacro "_deserialize_any(t.element_type" (c_farr_des f) = negb (b || (p && z)) /\
   emits KCall "nunavutGetBits(&{{ reference }}" (c_farr_des f) = b || (p && z).
 Proof. intros [] [] [] []; vm_compute; repeat split; reflexivity. Qed.
+
+(* ---------------- Part 3: enable_override_variable_array_capacity = true ----------------
+   Part 2 evaluates the regenerated trees with every atom it does not list - in particular `opt_override_capacity` - false, i.e.
+   on the default output.  With the option on, the up-front buffer check can be compiled out, so every store that does not go
+   through a bounds-checking support primitive must be preceded, on every static path, by a call of the `_guard` macro (which
+   then emits `if ((offset_bits + n) > (capacity_bytes * 8U)) return -...TOO_SMALL`). *)
+Definition is_guard_call (k : akind) (p : string) : bool :=
+  match k with KMacro => String.prefix "_guard(" p | _ => false end.
+
+Definition is_unchecked_store (k : akind) (p : string) : bool :=
+  match k with
+  | KStore => has_sub "buffer[offset_bits / 8U] =" p
+  | KCall => has_sub "memmove(&buffer[" p || has_sub "memset(&buffer[" p || has_sub "nunavutCopyBits(&buffer[0]" p
+             || has_sub "&buffer[offset_bits / 8U], &" p                       (* nested T_serialize_ on the rest of the buffer *)
+  | _ => false
+  end.
+
+Definition c_ser_guarded : bool :=
+  forallb (fun m => guarded_macro is_guard_call is_unchecked_store "opt_override_capacity" (snd m)) gen_c_ser_macros.
+
+Theorem c_override_stores_guarded : c_ser_guarded = true.
+Proof. vm_compute. reflexivity. Qed.
+
+(* the guard macro emits its check exactly under the option *)
+Theorem c_guard_macro_shape :
+  emits KGuard "if ((offset_bits + {{ n_bits }}) > (capacity_bytes * 8U))"
+    (flatten_all (fun a => String.eqb a "opt_override_capacity") (find_macro "_guard" gen_c_ser_macros)) = true /\
+  flatten_all (fun _ => false) (find_macro "_guard" gen_c_ser_macros) = [].
+Proof. vm_compute. split; reflexivity. Qed.
+
+(* non-vacuity of the scan: there are unchecked stores to guard, and dropping the guards is detected *)
+Example c_guard_scan_not_vacuous :
+  existsb (fun m => existsb (fun '(k, p) => is_unchecked_store k p) (flatten_all (fun _ => true) (snd m))) gen_c_ser_macros = true /\
+  forallb (fun m => guarded_macro (fun _ _ => false) is_unchecked_store "opt_override_capacity" (snd m)) gen_c_ser_macros = false.
+Proof. vm_compute. split; reflexivity. Qed.
 
 (* the statement patterns quoted by Properties/C01.v and C02.v *)
 Definition pat0 : string := "if ({{ <sat> }} > ".
